@@ -124,8 +124,13 @@ func (w *World) traceDump() { w.tr("srv dump", w.fs.DumpHex()) }
 // callRaw sends one call at the current virtual time and records it for the model.
 func (w *World) callRaw(prog, vers, proc uint32, cred Cred, args []byte) Reply {
 	absnfs.VerifSetClock(w.clockNs)
+	plain := (cred.Raw == nil && (cred.Flavor == 1 || cred.Flavor == 0)) || (cred.Flavor == 0 && len(cred.Raw) == 0)
+	if !plain && !w.noTrace {
+		w.flushTrace() // what was recorded so far is still a complete run
+		w.noTrace = true
+	}
 	r := w.srv.Call(prog, vers, proc, cred, args)
-	if r.Err == nil && r.Status == 0 && cred.Raw == nil && (cred.Flavor == 1 || cred.Flavor == 0) {
+	if r.Err == nil && r.Status == 0 && plain {
 		aux := "-"
 		if len(cred.Aux) > 0 {
 			var l []string
@@ -137,8 +142,6 @@ func (w *World) callRaw(prog, vers, proc uint32, cred Cred, args []byte) Reply {
 		w.tr(fmt.Sprintf("srv call %d %d %d %d %s %d %d %d %s %d %s", w.clockNs, cred.Flavor, cred.UID, cred.GID, aux, prog, vers, proc, hx(args), r.AcceptStatus, hx(r.Data)), "match")
 	} else if r.Err != nil || r.Status != 0 {
 		// no model line: a timeout or an authentication denial; neither changes the server state
-	} else {
-		w.noTrace = true // a call the model cannot follow (raw credential): stop tracing this world
 	}
 	return r
 }
